@@ -9,6 +9,9 @@ import (
 func applyMatrixSlice(m gf2p16.Matrix, in, out [][]byte, outStart, outEnd, dataStart, dataEnd int) {
 	for i := outStart; i < outEnd; i++ {
 		outSlice := out[i][dataStart:dataEnd]
+		if verifEnabled {
+			verifNoteWrite(i, out[i], dataStart, dataEnd)
+		}
 		c := m.At(i, 0)
 		inSlice := in[0][dataStart:dataEnd]
 		gf2p16.MulByteSliceLE(c, inSlice, outSlice)
